@@ -53,8 +53,8 @@ theorem spec_consts_agree :
     ∧ Spec.MbiRom.userKeySize = IvtConsts.hmacKeyLength
     ∧ Spec.MbiRom.encIvtCopySize = IvtConsts.encIvtCopySize ∧ Spec.MbiRom.ivSize = IvtConsts.encIvSize
     ∧ Spec.MbiRom.ivSize = IvtConsts.ctrInitVectorSize
-    ∧ IvtConsts.postEncryptLiterals = [Spec.MbiRom.ivSize, Spec.MbiRom.encIvtCopySize]
-    ∧ IvtConsts.ctrIvParseLiterals = [Spec.MbiRom.encIvtCopySize]
+    ∧ IvtConsts.postEncryptLiterals = [Spec.MbiRom.ivSize, Spec.MbiRom.encIvtCopySize, Spec.MbiRom.hmacOffset]
+    ∧ IvtConsts.ctrIvParseLiterals = [Spec.MbiRom.ivSize, Spec.MbiRom.hmacSize, Spec.MbiRom.encIvtCopySize, Spec.MbiRom.keyStoreSize]
     ∧ Spec.MbiRom.hmacKeyDerivation = IvtConsts.deriveHmacKeyConst ∧ Spec.MbiRom.encKeyDerivation = IvtConsts.deriveEncImageKeyConst
     ∧ Spec.MbiRom.certV1Magic = IvtConsts.certHeaderSignature ∧ Spec.MbiRom.certV1HeaderSize = IvtConsts.certHeaderSize
     ∧ Spec.MbiRom.rkhTableEntries = IvtConsts.rkhtEntries ∧ Spec.MbiRom.rkhSize = IvtConsts.rkhSize
